@@ -101,6 +101,12 @@ MiscGlobalKw == {"DRSDT", "DRSDTR", "DRVDT", "FBHPDEF", "GUIDERAT", "MESSAGES", 
 MiscWell(n, w, v) == HasWell(w) /\ AddKw([kw |-> "MISC", name |-> n, well |-> w, v |-> v]) /\ UNCHANGED st
 MiscGroup(n, g, v) == g \in st.groups \ {"FIELD"} /\ AddKw([kw |-> "MISC", name |-> n, group |-> g, v |-> v]) /\ UNCHANGED st
 MiscGlobal(n, v) == AddKw([kw |-> "MISC", name |-> n, v |-> v]) /\ UNCHANGED st
+\* a well whose connections are exactly the two layers of one column becomes a multi-segment well
+\* (WELSEGS + COMPSEGS; the second variant adds a valve)
+Msw(w, v) == /\ HasWell(w)
+             /\ \E i \in {1, 3} : /\ st.wells[w].conns = {<<i, i, 1>>, <<i, i, 2>>}
+                                 /\ AddKw([kw |-> "MSW", well |-> w, i |-> i, v |-> v])
+             /\ UNCHANGED st
 \* ACTIONX definition: the body is a sequence of keywords from the alphabet in which the well may be "?"
 \* (the wells matched by the condition); bodies only address existing wells / the match set
 ActionBodies(ws) ==
@@ -157,6 +163,7 @@ SNext ==
          \/ \E n \in MiscWellKw, w \in WellNames, v \in {1, 2} : MiscWell(n, w, v)
          \/ \E n \in MiscGroupKw, g \in GroupNames, v \in {1, 2} : MiscGroup(n, g, v)
          \/ \E n \in MiscGlobalKw, v \in {1, 2} : MiscGlobal(n, v)
+         \/ \E w \in WellNames, v \in {1, 2} : Msw(w, v)
          \/ \E a \in {"ACT1", "ACT2"} : \E b \in ActionBodies(DOMAIN st.wells) : Actionx(a, b) )
 SSpec == SInit /\ [][SNext]_svars
 \* design-level sanity of the generator: connections and controls only for existing wells
